@@ -46,6 +46,7 @@ func c18Run(c fw.Case, env *fw.Env) fw.Result {
 	case "single":
 		for k := 2; k <= n+1; k++ {
 			plans = append(plans, []scen.Fault{{At: k, Kind: scen.DropResp}})
+			plans = append(plans, []scen.Fault{{At: k, Kind: scen.DropReq}}) // the request itself vanishes on a stalled link
 		}
 	case "triples":
 		// the acknowledgement is dropped on three consecutive connections: first transmission,
@@ -115,7 +116,7 @@ func c18Run(c fw.Case, env *fw.Env) fw.Result {
 		// every fired DropResp: timeout error reported, connection closed by the library, new connection, retransmission
 		fired := 0
 		for i, e := range a.Ev {
-			if e.Kind != memnet.KFault || e.S != scen.DropResp {
+			if e.Kind != memnet.KFault || (e.S != scen.DropResp && e.S != scen.DropReq) {
 				continue
 			}
 			if e.Pkt != nil && e.Pkt.Type == mqttref.PUBLISH && e.Pkt.QoS == 0 {
